@@ -32,6 +32,15 @@ COND_MAX = 1e10
 @st.composite
 def mv_case(draw, klass=False):
     x = draw(gen.signal(8, 128, "any", kinds=KINDS))
+    exact = draw(st.integers(0, 7))
+    if exact == 7 and x["kind"] in ("noise", "ar", "arma", "int"):
+        # zero-stuffed records (up-sampler output): the odd-lag products cancel exactly, k_1 = k_3 = ... = 0.0
+        x["zero_stuff"] = draw(st.sampled_from([2, 2, 3]))
+    elif exact == 6 and x["kind"] == "int":
+        # small-valued integers (+-1 chips, sparse counts): exactly-zero reflection coefficients at inner stages
+        x["range"] = draw(st.sampled_from([[-1, 1], [-3, 3], [0, 1], [-2, 2]]))
+        x["n"] = draw(st.integers(8, 16))
+        x.pop("gain", None)
     N = x["n"]
     mmax = min(N // 2, 16)
     if x["kind"] == "tones" and not x["noise"]:
@@ -274,3 +283,14 @@ def c16_layout(ctx, case):
          "in double precision")
 def c16_single(ctx, case):
     _dt.single_body(ctx, case, _dt.TABLES["C16"])
+
+
+# ---- call-form invariance (documented parameter names) ----------------------------
+from vlib import kwcheck as _kw   # noqa: E402
+
+
+@sub("C16.keywords", strategy=_kw.kw_case(_kw.PROPS["C16"]), quick=200, thorough=4000,
+     doc="the same call with its trailing arguments given by their documented names (any split, any order) returns the same "
+         "result as the positional call, and every documented name is accepted: " + ", ".join(_kw.PROPS["C16"]))
+def c16_keywords(ctx, case):
+    _kw.body(ctx, case)
